@@ -324,22 +324,14 @@ class FakePool:
         self.joined = True
 
 
-def diag_raises_class(op):
-    """finding F06b: a term without X / Y carries a complex-typed coefficient"""
-    import numpy
-    for t, c in op.terms.items():
-        if all(a == 'Z' for _, a in t) and isinstance(c, (complex, numpy.complexfloating)):
-            return True
-    return False
-
-
 def stream_linear(ctx):
     of = ctx.of
     import numpy
     from openfermion.linalg import linear_qubit_operator as lq
     from openfermion.linalg import sparse_tools as stl
     st = Stream('linear-operators', 'LinearQubitOperator on basis vectors and random dyadic complex vectors (<= 5 qubits, '
-                'n_qubits up to +2), as a matrix (operator * identity); get_linear_qubit_operator_diagonal; '
+                'n_qubits up to +2), as a matrix (operator * identity); get_linear_qubit_operator_diagonal incl. complex-typed '
+                '(python / numpy) coefficients on Z-only terms; '
                 'get_operator_groups(k) and ParallelLinearQubitOperator with a fake pool delivering the group results '
                 'in every permutation (<= 4 groups; sampled beyond) for 1..5 processes; all compared exactly with the '
                 'Model and with the Spec matrix-vector product; distinct = distinct (operator, n, vector / k, order)')
@@ -413,8 +405,7 @@ def stream_linear(ctx):
             kind, dg = safe(stl.get_linear_qubit_operator_diagonal, op, n_arg)
             if kind == 'err':
                 st.count('diagonal:raised')
-                st.violate('diagonal-raised: get_linear_qubit_operator_diagonal raised %s' % dg.split(':')[0], dcase,
-                           {'error': dg, 'f06b_class': diag_raises_class(op)})
+                st.violate('get_linear_qubit_operator_diagonal raised %s' % dg.split(':')[0], dcase, {'error': dg})
             else:
                 st.count('diagonal:ok')
                 de = [fr(v) for v in dg]
@@ -431,6 +422,55 @@ def stream_linear(ctx):
                         st.violate('diagonal != diagonal of the matrix of the operator', dcase,
                                    {'got': [str(v) for v in de[:8]], 'want': [str(v) for v in want[:8]]})
                 B.ask({'op': 'c06.spec_matrix', 'alg': 'qubit', 'n': n, 'a': jop}, cbds)
+
+    # complex-typed coefficients on X/Y-free terms (what every transform of the library emits): an ordinary case
+    for k in range(budget(ctx.tier, 40, 400)):
+        nq = rng.randint(1, 4)
+        op = of.QubitOperator()
+        for _ in range(rng.randint(1, 4)):
+            qs = sorted(rng.sample(range(nq), rng.randint(0, nq)))
+            acts = 'Z' if rng.random() < 0.8 else 'XYZ'
+            t = tuple((q, rng.choice(acts)) for q in qs)
+            c = complex(rng.randint(-4, 4) / 2 ** rng.randint(0, 2), rng.choice([0, 0, -3, -1, 1, 2]) / 2 ** rng.randint(0, 2))
+            if k % 3 == 0:
+                c = numpy.complex128(c)
+            op.terms[t] = c
+        jop = enc_op('qubit', op.terms)
+        cnt = of.count_qubits(op)
+        extra = rng.choice([None, 0, 1])
+        n_arg = None if extra is None else cnt + extra
+        n = cnt if n_arg is None else n_arg
+        dim = 2 ** n
+        dcase = {'fn': 'get_linear_qubit_operator_diagonal', 'a': jop, 'n_qubits': n_arg,
+                 'coefficient_types': sorted({type(c).__name__ for c in op.terms.values()})}
+        st.case(dcase)
+        st.count('diagonal:complex-typed')
+        kind, dg = safe(stl.get_linear_qubit_operator_diagonal, op, n_arg)
+        if kind == 'err':
+            st.violate('get_linear_qubit_operator_diagonal raised %s' % dg.split(':')[0], dcase, {'error': dg})
+            continue
+        if len(dg) != dim:
+            st.violate('diagonal has length %d, not 2^n = %d' % (len(dg), dim), dcase, None)
+            continue
+        de = [fr(v) for v in dg]
+
+        def cbd2(m, de=de, dcase=dcase):
+            if 'error' in m or j_vec(m['diag']) != de:
+                st.disagree('diagonal', dcase, [str(v) for v in de[:8]], m)
+        B.ask({'op': 'c06.diagonal', 'a': jop, 'n': n_arg}, cbd2)
+
+        def cbds2(s_, de=de, dcase=dcase, dim=dim):
+            st.count('oracle:spec-diagonal')
+            S = j_entries(s_)
+            want = [S.get((i, i), (Fraction(0), Fraction(0))) for i in range(dim)]
+            if want != de:
+                st.violate('diagonal != diagonal of the matrix of the operator', dcase,
+                           {'got': [str(v) for v in de[:8]], 'want': [str(v) for v in want[:8]]})
+        B.ask({'op': 'c06.spec_matrix', 'alg': 'qubit', 'n': n, 'a': jop}, cbds2)
+    # too few qubits: ValueError
+    kind, r = safe(stl.get_linear_qubit_operator_diagonal, of.QubitOperator('Z3'), 2)
+    if not (kind == 'err' and r.startswith('ValueError')):
+        st.violate('get_linear_qubit_operator_diagonal with too few qubits did not raise ValueError', {}, str(r)[:100])
 
     # operator groups and the parallel operator
     for k in range(budget(ctx.tier, 100, 800)):
@@ -624,7 +664,9 @@ def stream_numeric(ctx):
     import scipy.sparse
     st = Stream('expectation-variance-eigenspectrum', 'expectation / variance with state vectors (1-d, column) and density '
                 'matrices, through sparse matrices and LinearQubitOperators; eigenspectrum of Hermitian Qubit / Fermion '
-                'operators and an InteractionOperator; compared (1e-9) with direct linear algebra on the Spec matrix; '
+                'operators; eigenspectrum / sparse_eigenspectrum / is_hermitian (sparse and dense matrix branches) on non-Hermitian '
+                'operators (complex diagonal, anti-Hermitian, hopping + imaginary diagonal, imaginary number operators) against '
+                'numpy.linalg.eigvals of the Spec matrix; compared (1e-9 / 1e-8) with direct linear algebra on the Spec matrix; '
                 'distinct = distinct (operator, state)')
     rng = rng_for(ctx.seed, 'c06-numeric')
     for k in range(budget(ctx.tier, 80, 600)):
@@ -678,6 +720,104 @@ def stream_numeric(ctx):
         elif len(spec) != dim or not float(numpy.max(numpy.abs(numpy.sort(numpy.real(spec)) - want_s))) <= 1e-9:
             st.violate('eigenspectrum != eigenvalues of the matrix of the operator', case,
                        {'got': [float(numpy.real(x)) for x in spec], 'want': want_s.tolist()})
+    # non-Hermitian operators: eigenspectrum must use the general eigenvalue routine, is_hermitian must say False.
+    # Families with well-conditioned (distinct or exactly diagonal) spectra so that 1e-8 is decided with margin.
+    from openfermion.linalg import sparse_tools as stl
+    Q, F = of.QubitOperator, of.FermionOperator
+
+    def spec_dense(cls, op):
+        jop = enc_op(cls, op.terms)
+        nq = of.count_qubits(op)
+        S = j_entries(ctx.driver.one({'op': 'c06.spec_matrix', 'alg': cls, 'n': nq, 'a': jop}))
+        D = numpy.zeros((2 ** nq, 2 ** nq), dtype=complex)
+        for (r, c), v in S.items():
+            D[r, c] = complex(float(v[0]), float(v[1]))
+        return jop, D
+
+    def match_spectra(got, want, tol):
+        got = [complex(x) for x in got]
+        used = [False] * len(got)
+        for w in want:
+            best, bi = None, -1
+            for i, g in enumerate(got):
+                if not used[i] and (best is None or abs(g - w) < best):
+                    best, bi = abs(g - w), i
+            if bi < 0 or best > tol:
+                return False
+            used[bi] = True
+        return len(got) == len(want)
+
+    nonherm = []
+    for _ in range(budget(ctx.tier, 12, 120)):
+        kindn = rng.choice(['diag-complex', 'anti-hermitian', 'hopping+imag-diagonal', 'imag-identity-shift',
+                            'fermion-imag-number'])
+        if kindn == 'diag-complex':
+            # complex coefficients on Z strings: a diagonal (normal) matrix
+            op = Q()
+            for _ in range(rng.randint(1, 3)):
+                qs = sorted(rng.sample(range(3), rng.randint(1, 2)))
+                op += Q(tuple((q, 'Z') for q in qs), complex(rng.randint(-3, 3) / 2, rng.choice([-2, -1, 1, 2]) / 2))
+            cls = 'qubit'
+        elif kindn == 'anti-hermitian':
+            h = rand_qubit_op(rng, of, 2, 3, complex_typed=False)
+            op = 1j * (h + of.hermitian_conjugated(h)) + Q('Z0', 0.5j)
+            cls = 'qubit'
+        elif kindn == 'imag-identity-shift':
+            h = rand_qubit_op(rng, of, 2, 3, complex_typed=False)
+            op = (h + of.hermitian_conjugated(h)) + Q((), rng.choice([0.5j, -1j, 2j]))
+            cls = 'qubit'
+        elif kindn == 'hopping+imag-diagonal':
+            t, g = rng.choice([(1.0, 0.5), (0.5, 0.25), (1.0, 0.25), (2.0, 0.5), (0.5, 1.0), (0.25, 1.0)])
+            op = Q('X0 X1', t / 2) + Q('Y0 Y1', t / 2) + Q('Z0', 0.5j * g) + Q('Z1', -0.5j * g)
+            cls = 'qubit'
+        else:
+            t, g = rng.choice([(1.0, 0.5), (0.5, 0.25), (1.0, 0.25), (2.0, 0.5), (0.5, 1.0)])
+            op = F('0^ 1', t) + F('1^ 0', t) + F('0^ 0', 1j * g) + F('1^ 1', -1j * g)
+            cls = 'fermion'
+        nonherm.append((kindn, cls, op))
+    nonherm.append(('imag-Z', 'qubit', Q('Z0', 1j)))
+    nonherm.append(('imag-number', 'fermion', F('0^ 0', 1j)))
+    for kindn, cls, op in nonherm:
+        jop, D = spec_dense(cls, op)
+        case = {'fn': 'eigenspectrum/is_hermitian (non-Hermitian)', 'family': kindn, 'cls': cls, 'a': jop}
+        st.case(case)
+        st.count('non-hermitian:' + kindn)
+        exact_herm = bool(numpy.array_equal(D, D.conj().T))
+        want = numpy.linalg.eigvals(D)
+        kind, M = safe(of.get_sparse_operator, op)
+        if kind == 'err':
+            st.violate('get_sparse_operator raised', case, M)
+            continue
+        for name, f in (('is_hermitian(sparse matrix)', lambda: of.is_hermitian(M)),
+                        ('is_hermitian(dense matrix)', lambda: of.is_hermitian(M.toarray()))):
+            kind, got = safe(f)
+            if kind == 'err':
+                st.violate(name + ' raised', case, got)
+            elif bool(got) != exact_herm:
+                st.violate('%s = %s but the matrix %s Hermitian' % (name, got, 'is' if exact_herm else 'is not'),
+                           case, None)
+        for name, f in (('eigenspectrum(operator)', lambda: of.eigenspectrum(op)),
+                        ('sparse_eigenspectrum(matrix)', lambda: stl.sparse_eigenspectrum(M))):
+            kind, got = safe(f)
+            st.float_comparisons += len(want)
+            if kind == 'err':
+                st.violate(name + ' raised', case, got)
+            elif not match_spectra(list(numpy.asarray(got).ravel()), list(want), 1e-8):
+                st.violate(name + ' != eigenvalues of the (non-Hermitian) matrix of the operator', case,
+                           {'got': [str(complex(x)) for x in numpy.asarray(got).ravel()],
+                            'want': [str(complex(x)) for x in want]})
+    # is_hermitian on Hermitian matrices (must say True), sparse and dense
+    for _ in range(budget(ctx.tier, 8, 60)):
+        h = rand_qubit_op(rng, of, 3, 3)
+        op = h + of.hermitian_conjugated(h)
+        kind, M = safe(of.get_sparse_operator, op)
+        st.count('is_hermitian:hermitian')
+        if kind == 'ok':
+            for name, f in (('is_hermitian(sparse matrix)', lambda: of.is_hermitian(M)),
+                            ('is_hermitian(dense matrix)', lambda: of.is_hermitian(M.toarray()))):
+                kind2, got = safe(f)
+                if kind2 == 'err' or not got:
+                    st.violate(name + ' is not True on a Hermitian matrix', {'a': enc_op('qubit', op.terms)}, str(got)[:100])
     kind, r = safe(of.eigenspectrum, of.BosonOperator('0^ 0'))
     if not (kind == 'err' and r.startswith('TypeError')):
         st.violate('eigenspectrum(BosonOperator) did not raise TypeError', {}, str(r)[:100])
@@ -690,28 +830,6 @@ def stream_numeric(ctx):
 
 def run(ctx):
     return [stream_sparse(ctx), stream_linear(ctx), stream_boson(ctx), stream_numeric(ctx)]
-
-
-def classify(v):
-    """F06b: get_linear_qubit_operator_diagonal raises (numpy casting error) when a term without X / Y has a
-    complex-typed coefficient (`zeros(float) += complex * ...`)."""
-    if v.get('what', '').startswith('diagonal-raised') and 'UFuncTypeError' in v.get('what', ''):
-        d = v.get('detail') or {}
-        if d.get('f06b_class'):
-            return 'F06b'
-    return None
-
-
-def probe_known(ctx, k):
-    if k.get('id') != 'F06b':
-        return False
-    of = ctx.of
-    from openfermion.linalg import sparse_tools as stl
-    try:
-        stl.get_linear_qubit_operator_diagonal(of.QubitOperator('Z0', 1 + 0j))
-    except Exception:
-        return True
-    return False
 
 
 def replay(ctx, payload):
